@@ -36,6 +36,12 @@ type Engine interface {
 	Assumptions() []string
 }
 
+// RaceProng is implemented by engines whose property has a data-race clause:
+// the coordinator then also runs their task scripts in the -race binary.
+type RaceProng interface {
+	RaceRuns(tier string) int
+}
+
 // Pinner is optionally implemented by engines that enumerate faults inside
 // Exec: Pin rewrites a failing script so that it names the single fault.
 type Pinner interface {
